@@ -200,6 +200,14 @@ func weekdays(t *rapid.T, c *spec.Call, v *api.Variant) {
 	switch rapid.IntRange(0, 5).Draw(t, "weekdays.kind") {
 	case 0: // nil map
 		v.WeekdaysNil = true
+	case 4:
+		// keys that are no weekday of package time (7 is Sunday to ISO 8601, to cron, to many a database): the protocol has seven
+		// flags, the extra entries are the caller's own
+		v.ExtraWeekdays = rapid.SampledFrom([][]int{{7}, {7}, {8}, {-1}, {7, 8}, {100}}).Draw(t, "weekdays.extra")
+		for i := 0; i < 7; i++ {
+			v.WeekPresent[i] = rapid.Bool().Draw(t, "weekdays.present")
+			c.Weekdays[i] = v.WeekPresent[i] && rapid.Bool().Draw(t, "weekdays.value")
+		}
 	case 1: // partial map
 		for i := 0; i < 7; i++ {
 			v.WeekPresent[i] = rapid.Bool().Draw(t, "weekdays.present")
